@@ -91,7 +91,7 @@ func init() {
 		func(c *Ctx) {
 			nb, ns, lim := 24, 16, Limits{MaxStates: 2500, MaxSteps: 20000, MaxVisits: 3, MaxDepth: 40}
 			if c.Thorough() {
-				nb, ns, lim = 96, 32, Limits{MaxStates: 20000, MaxSteps: 60000, MaxVisits: 4, MaxDepth: 48}
+				nb, ns, lim = 64, 32, Limits{MaxStates: 8000, MaxSteps: 40000, MaxVisits: 4, MaxDepth: 48}
 			}
 			ruleShapeFaults(shapeConfig{label: "hostile input", keep: func(string) bool { return false }, extra: hostileEntries, floor: 31,
 				override: hostileParams(nb, ns), hostile: true, lim: lim})(c)
